@@ -294,6 +294,18 @@ fn run_case(seed: u64, idx: u64, _tier: Tier, out: &mut CaseOut) {
             }
         }
     }
+    // the same rule once more at the end of its sheet (A, B, A): the repetition is the
+    // later one in source order
+    if rng.chance(1, 5) {
+        for rules in [&mut user_rules, &mut author_rules] {
+            if rules.len() >= 2 && rng.chance(1, 2) {
+                let k = rng.below(rules.len() - 1);
+                let dup = rules[k].clone();
+                rules.push(dup);
+                out.inc("sheets_with_repeated_rule");
+            }
+        }
+    }
     // inline hiding on a few elements
     let mut inline: Vec<(String, bool)> = Vec::new(); // (data-u, none?)
     ast::for_each_el_mut(&mut doc, &mut |e| {
